@@ -15,7 +15,7 @@ RULE = (
     "tolerance, leftovers must have zero area.  Non-trivial = glyph with >= 2 outlines or a transformed component."
 )
 ASSUMPTIONS = ["picosvg-normal source is the reference", "tolerances as C01; TrueType component scale fields add 2^-14 * coordinate"]
-N = {"quick": 224, "thorough": 4000}
+N = {"quick": 352, "thorough": 6000}
 FORMATS = ("glyf", "glyf_colr_0", "glyf_colr_0", "cff_colr_0", "cff2_colr_0")
 
 
